@@ -45,8 +45,16 @@ def run(tier, seed, replay_rows=None):
               key_of=key_of,
               nontrivial=lambda t: (t["kind"] == "ramp") or any(d > 0 for d, e in t["stages"]),
               distinct_key=lambda t: t["arg"] + t["unit"], selftest=selftest, replay_rows=replay_rows)
+    if replay_rows is None:
+        # the profile follows REAL time inside a running trigger: whole runs of a staged step profile whose trigger goroutine
+        # is stalled early on (API and command line), every evaluation logged at iw.eval (whole-run observer, clause C10)
+        import runtraces
+        runtraces.check(ck, "C10", only="staged-step", parts=2)
     return ck.finish()
 
 
 def replay(path, seed):
+    rp = json.load(open(path))
+    if "cfg" in (rp["replay"].get("rows") or [{}])[0]:
+        return run("quick", seed)          # whole-run observations are re-made on the current tree
     return vlib.std_replay(run, path, seed)
